@@ -101,6 +101,16 @@ def run(ctx) -> int:
     texts += [gen.mutate(rng, rng.choice(H)[1]) for _ in range(40 if ctx.quick() else 1500)]
     for g in tgen.GENERATORS.values():
         texts += [g(rng) for _ in range(8 if ctx.quick() else 200)]
+    # statements of every kind next to a rule (directives with bodies share their body with the caller's AST unless a pass
+    # rebuilds it), and the programs of cleanup's targeted generator (literals deleted INSIDE aggregate elements and
+    # conditional literals: the passes that do this in place must work on a copy)
+    import corr_cleanup
+    for _ in range(60 if ctx.quick() else 1500):
+        r = rng.random()
+        first = gen.other_stm(rng) if r < 0.5 else (
+            f"#show {gen.term(rng, 1)} : {', '.join(gen.body_lit(rng) for _ in range(rng.choice([1, 2, 3])))}." if r < 0.75 else gen.objective(rng))
+        texts.append(first + "\n" + gen.rule(rng))
+    texts += [corr_cleanup.targeted_program(rng) for _ in range(40 if ctx.quick() else 1000)]
     cases = []
     for t in texts:
         fl = rng.choice([default, default, allf, semcheck.flags_only(rng.choice(semcheck.ALL_TRAITS))])
